@@ -282,6 +282,7 @@ fn run13<W: SimWord + PartialEq, D: MemDev<W>>(s: &S13, dev: &mut D, m: &mut Mod
                             Ok(())
                         } else {
                             ctx.probe("c13.setpos_rejected");
+                            ctx.probe_if(*p >= 1u64 << 32, "c13.setpos_huge_rejected");
                             Err(())
                         }
                     }
@@ -416,12 +417,27 @@ impl Family for C13 {
                 3..=5 => Op13::Write(X128((rng.next() as u128) << 64 | rng.next() as u128 | 1)),
                 6 => Op13::Pos,
                 7 | 8 => {
-                    let p = match rng.below(8) {
+                    let p = match rng.below(10) {
                         0 => 0,
                         1 => len_est,
                         2 => len_est + 1,
                         3 => len_est + rng.range(1, 3),
                         4 => rng.range(1 << 20, (1u64 << 32) - 1),
+                        // far out of range: 2^k + small (a position whose high bits must not be
+                        // lost in any internal byte-offset arithmetic), 2^63-1, 2^64-1. The
+                        // zero-extended reader accepts any position; it is kept below 2^62 so
+                        // that the cursor arithmetic of the model cannot overflow either.
+                        5 | 6 => {
+                            if kind == MemKind::ReaderInf {
+                                (1u64 << rng.range(32, 61)) + rng.range(0, len_est + 1)
+                            } else {
+                                match rng.below(4) {
+                                    0 => u64::MAX - rng.below(2),
+                                    1 => i64::MAX as u64,
+                                    _ => (1u64 << rng.range(32, 63)).wrapping_mul(rng.range(1, 3)).wrapping_add(rng.range(0, len_est + 1)),
+                                }
+                            }
+                        }
                         _ => rng.range(0, len_est + 1),
                     };
                     Op13::SetPos(p)
@@ -509,6 +525,7 @@ impl Family for C13 {
             "c13.read_beyond_end_err",
             "c13.write_beyond_end_err",
             "c13.setpos_rejected",
+            "c13.setpos_huge_rejected",
             "c13.vec_grow",
         ]
     }
